@@ -21,6 +21,7 @@ import (
 
 	gerr "github.com/fatedier/golib/errors"
 
+	"github.com/fatedier/frp/pkg/util/verifhook"
 	"github.com/fatedier/frp/server/ports"
 )
 
@@ -100,6 +101,7 @@ func (tg *TCPGroup) Listen(proxyName string, group string, groupKey string, addr
 		if err != nil {
 			return
 		}
+		verifhook.At("tcpgroup.listen.acquired", proxyName)
 		tcpLn, errRet := net.Listen("tcp", net.JoinHostPort(addr, strconv.Itoa(port)))
 		if errRet != nil {
 			err = errRet
